@@ -20,6 +20,9 @@ structure Rep where
   deny : List Bytes := []
   /-- hashes whose entry OBJECT in this replica is an invalid variant (tampered copy) -/
   invalid : List Hash := []
+  /-- hashes whose entry object here has had its (unsigned) identity stripped: refused by a controller that
+      decides by identity, acceptable to the permissive default controller -/
+  noIdent : List Hash := []
   hasWrongId : Bool := false
   /-- not causally closed any more (bounded join / limited load, or merged from such a replica) -/
   partialLog : Bool := false
@@ -163,7 +166,8 @@ def handle (s : St) (line : String) : St :=
       let implH := implE.filter (fun e => !referenced implE e.hash)
       let s := { s with pendingPC := some (r.toNat!, toInt! pc, implE, implH, rep.writer, ie) }
       s.setRep r.toNat! { rep with log := l' }
-  | ["T", r, src, inv, wid] =>
+  | "T" :: r :: src :: inv :: wid :: nidL =>
+    let nid := match nidL with | x :: _ => x | [] => "-"
     let s := { s with lastOp := "tamper" }
     match s.rep? src.toNat! with
     | none => s.diff "tamper-unknown-src" src ""
@@ -172,7 +176,7 @@ def handle (s : St) (line : String) : St :=
       let fix (e : Entry) : Entry := if widH.contains e.hash then { e with logId := strBytes "Z" } else e
       let l' : Log := { sr.log with entries := sr.log.entries.map fix, heads := sr.log.heads.map fix,
                                     clock := { id := sr.log.clock.id, time := maxTime sr.log.heads 0 } }
-      s.setRep r.toNat! { sr with log := l', invalid := sr.invalid ++ s.hs (parseList inv), deny := [],
+      s.setRep r.toNat! { sr with log := l', invalid := sr.invalid ++ s.hs (parseList inv), noIdent := sr.noIdent ++ s.hs (parseList nid), deny := [],
                                   hasWrongId := sr.hasWrongId || !widH.isEmpty, partialLog := true, lastE := [], lastV := [] }
   | ["S", r, clk] =>
     let s := { s with lastOp := "setid" }
@@ -188,13 +192,22 @@ def handle (s : St) (line : String) : St :=
       if r == r2 then (if res == "ok" then s else s.diff "join.self" "ok" res) else
       let sz := toInt! size
       match join a.log b.log.id b.log.entries b.log.heads sz
-          (fun e => !a.deny.contains e.clock.id && !b.invalid.contains e.hash) with
-      | .err => if res == "err" then s.count "cmp:join.rejected" else s.diff "join.result" "err" res
+          (fun e => !a.deny.contains e.clock.id && !b.invalid.contains e.hash && (a.deny.isEmpty || !b.noIdent.contains e.hash)) with
+      | .err =>
+        if res == "err" then s.count "cmp:join.rejected" else
+        -- C06 on the implementation's own answer: the join returned without error although the source holds,
+        -- among the entries the destination lacks, one that is denied, forged or carries no identity
+        let implA := s.ents a.lastE   -- the destination as last observed on the implementation
+        let bad (e : Entry) : Bool := !has a.log.entries e.hash && !has implA e.hash &&
+          (a.deny.contains e.clock.id || b.invalid.contains e.hash || (!a.deny.isEmpty && b.noIdent.contains e.hash))
+        let offenders := (b.log.entries.filter bad).map (·.hash)
+        (s.diff "join.result" "err" res).spec "C06" "unauthorisedRefused" (res != "ok" || offenders.isEmpty)
+          (s!"join {r} {r2} {size} returned {res}; offending entries: " ++ showH s offenders)
       | .ok l' =>
         let s := if res == "ok" then s else s.diff "join.result" "ok" res
         -- C06: entries produced by Append are mergeable — when the destination denies nobody and the
         -- source holds no tampered entry, the merge must succeed (under every codec configuration)
-        let s := if a.deny.isEmpty && b.invalid.isEmpty && !b.hasWrongId then
+        let s := if a.deny.isEmpty && b.invalid.isEmpty && !b.hasWrongId then  -- (stripped identities are fine for the default controller)
             s.spec "C06" "appendedMergeable" (res == "ok") s!"join {r} {r2} {size} -> {res} (keyed={s.keyed})" else s
         let total := (omFromList (a.log.entries ++ b.log.entries)).length
         let cut := sz > -1 && sz < total && a.log.id == b.log.id
@@ -210,9 +223,10 @@ def handle (s : St) (line : String) : St :=
         -- C06: everything that was added is valid, authorised and carries the log's id
         let added := l'.entries.filter (fun e => !has a.log.entries e.hash)
         let s := s.spec "C06" "admittedValid" (added.all (fun e =>
-          !a.deny.contains e.clock.id && !b.invalid.contains e.hash && e.logId == a.log.id))
-          (s!"join {r} {r2}: " ++ showH s ((added.filter (fun e => !( !a.deny.contains e.clock.id && !b.invalid.contains e.hash && e.logId == a.log.id))).map (·.hash)))
+          !a.deny.contains e.clock.id && !b.invalid.contains e.hash && (a.deny.isEmpty || !b.noIdent.contains e.hash) && e.logId == a.log.id))
+          (s!"join {r} {r2}: " ++ showH s ((added.filter (fun e => !( !a.deny.contains e.clock.id && !b.invalid.contains e.hash && (a.deny.isEmpty || !b.noIdent.contains e.hash) && e.logId == a.log.id))).map (·.hash)))
         s.setRep r.toNat! { a with log := l', invalid := a.invalid.filter (fun h => has l'.entries h),
+                                   noIdent := a.noIdent ++ (b.noIdent.filter (fun h => has l'.entries h && !has a.log.entries h)),
                                    partialLog := a.partialLog || cut || ((b.partialLog || b.hasWrongId) && a.log.id == b.log.id),
                                    orderFree := a.orderFree || (b.orderFree && a.log.id == b.log.id) }
     | _, _ => s.diff "join-unknown-replica" r r2
@@ -244,6 +258,7 @@ def handle (s : St) (line : String) : St :=
         else if kind == "eh" then some (loadEntryHash cid k sr.log.id fetched nI)
         else if kind == "json" then some (loadJSON cid k sr.log.id fetched nI)
         -- in-memory copies through `NewLog` (entries and, except `cpG`, heads handed over)
+        else if kind == "json0" then some (loadJSON cid k sr.log.id [] nI)
         else if kind == "cpE" then some (newLog sr.log.id cid k sr.log.entries heads)
         -- `cpV` hands over the linearisation (for a trimmed log not every entry is reachable from the heads)
         else if kind == "cpV" then some (newLog sr.log.id cid k (values sr.log) heads)
@@ -253,8 +268,12 @@ def handle (s : St) (line : String) : St :=
       | none => s.diff "load" "panic(empty result)" res
       | some l' =>
         let cut := nI > -1 && nI < fetched.length
-        let s := if nI == -1 && !sr.partialLog then { s with pendingLoad := some (r.toNat!, src.toNat!, kind) } else s
-        s.setRep r.toNat! { log := l', writer := cid, partialLog := sr.partialLog || cut, orderFree := s.shared }
+        let s := if nI == -1 && !sr.partialLog && kind != "json0" then { s with pendingLoad := some (r.toNat!, src.toNat!, kind) } else s
+        -- an in-memory copy shares the source's entry OBJECTS (stripped identities travel with them); a load
+        -- reads fresh objects from the store
+        let isCopy := kind == "cpE" || kind == "cpG" || kind == "cpV"
+        s.setRep r.toNat! { log := l', writer := cid, partialLog := sr.partialLog || cut, orderFree := s.shared,
+                            noIdent := if isCopy then sr.noIdent else [] }
   | ["I", r, lte, lt, gte, gt, am, res, closed, outs] =>
     let s := { s with lastOp := "iter" }
     match s.rep? r.toNat! with
@@ -402,6 +421,12 @@ def handle (s : St) (line : String) : St :=
       let s := if toString m == has then s else s.diff "has" (toString m) has
       let s := if toString m == ok then s else s.diff "get" (toString m) ok
       s.spec "C05" "retrievedIdentical" (same != "differs") s!"replica {r} entry {a}"
+  | ["Q", r, jn, inr, sent] =>
+    -- nil arguments: a nil log to merge and nil iterator options are refused with an error, nothing is emitted
+    let s := s.count "cmp:nil-args"
+    let s := if jn == "err" then s else s.diff "join.nil" "err" jn
+    let s := if inr == "err" && sent == "0" then s else s.diff "iter.nil" "err 0" s!"{inr} {sent}"
+    s.spec "C15" "noPanic" (inr != "panic") s!"Iterator(nil) on replica {r}"
   | ["LP", n, got] =>
     -- a loader wrote through the caller's limit pointer: every later load with that variable is wrong
     s.spec "C10" "limitUntouched" false s!"limit variable {n} now holds {got}"
